@@ -390,11 +390,30 @@ fn record_num(path: &str, seed: u64, n: usize) {
         }
         ts.sort();
         ts.dedup();
+        // position is the time integral of velocity: within one piece the velocity is linear in t, so between two queries of the same
+        // piece the position must advance by the mean of the two velocities times the interval
+        let mut prev: Option<(i64, i64, f64, f64)> = None;
+        let int_bound = {
+            let eps = f32::EPSILON as f64;
+            let t3s = t3 as f64 / 1e9;
+            let vscale = (vmax as f64).max(start.velocity.abs() as f64).max(end.velocity.abs() as f64).max(amax as f64 * t3s);
+            let pscale = (start.position.abs() as f64).max(end.position.abs() as f64).max(vscale * t3s).max(amax as f64 * t3s * t3s);
+            8.0 * eps * pscale + 4.0 * vscale * 1e-9
+        };
         for t in ts {
             if t < 0 || t >= t3 {
                 continue;
             }
             let o = match observe(&p, Time(t)) { Ok(o) => o, Err(_) => { writeln!(f, "{}", json!({"k": "panic"})).unwrap(); break } };
+            if let (Some(v), Some(x)) = (o.vel, o.pos) {
+                if let Some((pt, pp, pv, px)) = prev {
+                    if pp == o.piece {
+                        let (e, bd) = scaled((x.value as f64 - px) - (v.value as f64 + pv) / 2.0 * ((t - pt) as f64 / 1e9), int_bound);
+                        writeln!(f, "{}", json!({"k": "b", "what": "position advances by the integral of the velocity between two instants of one piece", "err": e, "bound": bd})).unwrap();
+                    }
+                }
+                prev = Some((t, o.piece, v.value as f64, x.value as f64));
+            }
             let on = np.as_ref().ok().and_then(|q| observe(q, Time(t)).ok());
             let kq = |x: Option<Quantity>| x.map(|q| f32_key(q.value)).unwrap_or(i64::MAX >> 34);
             let (na, nv, npz, npc) = match &on { Some(o2) => (kq(o2.acc), kq(o2.vel), kq(o2.pos), o2.piece), None => (0, 0, 0, 0) };
